@@ -84,10 +84,14 @@ type normJob struct {
 // norm is the meaning of a job table as far as the offsets file is
 // concerned: per source id the file name and the stream→offset map; jobs that
 // have no committed offset yet carry no information and are omitted.
-func norm(t WTable) map[uint64]normJob {
+func norm(t WTable) map[uint64]normJob { return normKeep(t, false) }
+
+// normKeep with keepEmpty is used for what load returned: a loaded job without
+// streams is not "nothing" (the plugin refuses to start with it).
+func normKeep(t WTable, keepEmpty bool) map[uint64]normJob {
 	m := map[uint64]normJob{}
 	for _, j := range t {
-		if len(j.Streams) == 0 {
+		if len(j.Streams) == 0 && !keepEmpty {
 			continue
 		}
 		nj := normJob{file: string(j.File), streams: map[string]int64{}}
@@ -101,7 +105,7 @@ func norm(t WTable) map[uint64]normJob {
 
 // diffTables returns "" when both tables mean the same snapshot.
 func diffTables(want, got WTable) string {
-	w, g := norm(want), norm(got)
+	w, g := norm(want), normKeep(got, true)
 	ids := make([]uint64, 0, len(w))
 	for id := range w {
 		ids = append(ids, id)
@@ -206,10 +210,11 @@ var idPool = []uint64{0, 1, 2, 255, 1<<31 - 1, 1 << 31, 1<<32 - 1, 1 << 32, 1<<6
 var nameAlphabet = []string{"a", "b", "z", "0", "7", ":", " ", "-", "#", "\"", "\\", "é", "日", "\t", ".", "/", "_", "'", "😀", "\r", "%", "{", "[", "\x00", "\xff"}
 
 type genOpt struct {
-	hostile  bool // allow the known-bad classes (empty / line-feed names)
-	maxJobs  int
-	bigProb  float64 // probability of a large table (write buffer beyond its initial 64 KiB)
-	safeOnly bool    // only plain well-behaved names (for the fault/concurrency monitors)
+	hostile   bool // allow the known-bad classes (empty / line-feed names)
+	maxJobs   int
+	bigProb   float64 // probability of a large table (write buffer beyond its initial 64 KiB)
+	safeOnly  bool    // only plain well-behaved names (for the fault/concurrency monitors)
+	shortOnly bool    // (set for large tables) no very long names: bounds memory
 }
 
 func randName(rng *rand.Rand, lf bool) string {
@@ -246,6 +251,9 @@ func genStreamName(rng *rand.Rand, o genOpt) string {
 	case r < 9:
 		return randName(rng, false)
 	default:
+		if o.shortOnly {
+			return randName(rng, false)
+		}
 		n := []int{300, 1023, 1024, 5000, 70000}[rng.Intn(5)]
 		return strings.Repeat([]string{"x", "é", ":", " y"}[rng.Intn(4)], n)
 	}
@@ -264,6 +272,9 @@ func genFileName(rng *rand.Rand, o genOpt, i int) string {
 	case r < 9:
 		return "/d/" + strings.ReplaceAll(randName(rng, false), "\x00", "_")
 	default:
+		if o.shortOnly {
+			return "/" + strings.Repeat("long-dir/", 28) + "f.log"
+		}
 		return "/" + strings.Repeat("long-dir/", []int{28, 455, 8000}[rng.Intn(3)]) + "f.log"
 	}
 }
@@ -298,6 +309,7 @@ func genTable(rng *rand.Rand, o genOpt) WTable {
 		if rng.Intn(3) == 0 {
 			maxStreams = 40
 		}
+		o.shortOnly = true
 	}
 	used := map[uint64]bool{}
 	t := make(WTable, 0, nj)
